@@ -1148,6 +1148,19 @@ def c13(tr, cx):
         if E[3] == 'arrival':
             for e in inner:
                 if e[0] == 'exit': exits[E[1]].add(e[2])
+    # the baulking function is consulted exactly once for every arrival that is not rejected, at whatever kind of node
+    if spec.get('baulking'):
+        consulted = collections.Counter(cid for (t, nid, c, cid, n, truen, p) in tr.logs.blog)
+        for E, inner in groups:
+            if E[3] != 'arrival': continue
+            cls_ = [e[3] for e in inner if e[0] == 'arrival']
+            if not cls_: continue
+            for e in inner:
+                if e[0] != 'arrive_try': continue
+                fn = (spec['baulking'].get(cls_[0]) or [None] * e[2])[e[2] - 1]
+                if fn is None or e[3] in rej: continue
+                tr.count('C13.arrivals_with_baulking_function')
+                if consulted[e[3]] != 1: tr.v('C13', 'baulking_function_not_consulted_once', (e[1], e[2], e[3], consulted[e[3]]))
     nb = 0; nq = 0
     zs = [(p, cid in bk) for (t, nid, c, cid, n, truen, p) in tr.logs.blog if 0.0 < p < 1.0 and (cx['t_cut'] is None or t < cx['t_cut'])]
     if zs:
